@@ -1,5 +1,7 @@
 CONSTANTS
   Dev = {"D_nsec3_label_expect"}
+  AnchorForms = {"dnskey"}
+  Cfgs = {"default"}
   MaxRuns = 1
   EntQKinds = {"positive", "nxdomain", "ds"}
   Budget = 1
